@@ -619,42 +619,69 @@ class Engine(DynMixin, ExprMixin, ModelMixin, BuiltinMixin, MAMixin):
             pre = s0.fork()
             s0.note_k(z3.IntVal(0))
             s0.note_k(z3.IntVal(1))
-            # --- peeled first iteration
+            # --- peeled first iteration: establishes Inv(1) on every normally ending path
+            rep = None
             for s1, out in body(s0, seq.get(z3.IntVal(0)), z3.IntVal(0)):
                 if out[0] not in ("normal", "continue"):
                     if out[0] == "break":
                         raise Unsupported("break in symbolic loop")
                     yield s1, out
                     continue
-                # establishment: Inv(1) on s1
                 lc.check(self, pre, s1, z3.IntVal(1), seq, label + ":establish")
-                # arbitrary iteration j in [1, m)
-                j = smt.fresh("j", z3.IntSort())
-                sj = s1.fork()
-                sj.assume(z3.And(j >= 1, j < m))
-                sj.note_k(j)
-                sj.note_k(j + 1)
-                lc.abstract(self, pre, sj, j, seq)
-                general = []
-                if self.feasible(sj):
-                    sj.trail.append(label + ":iter j")
-                    base_len = len(sj.log)
-                    for s2, out2 in body(sj, seq.get(j), j):
-                        if out2[0] in ("normal", "continue"):
-                            lc.check(self, pre, s2, j + 1, seq, label + ":preserve")
-                            general = [("forall",) + tuple(ev) for ev in s2.log[base_len:] if ev and ev[0] == "touch"]
-                        elif out2[0] == "break":
-                            raise Unsupported("break in symbolic loop")
-                        else:
-                            yield s2, out2
-                # exit with Inv(m)
-                se = s1.fork()
-                se.note_k(m)
-                se.note_k(m - 1)
-                lc.abstract(self, pre, se, m, seq)
-                se.log.extend(general)
-                se.trail.append(label + ":exit")
-                yield se, ("normal", None)
+                if rep is None:
+                    rep = s1
+            if rep is None:
+                continue
+
+            def from_pre(extra):
+                """a state that knows only the pre-loop facts (plus `extra`); the locals' shapes come from the peeled run.
+                Building it from `pre` keeps the rule sound (no branch condition of the first iteration leaks) and gives
+                one continuation per loop instead of one per path of the first iteration."""
+                s = pre.fork()
+                for oid, content in rep.store.items():
+                    if oid not in s.store:
+                        s.store[oid] = content
+                s.fresh_oids |= rep.fresh_oids
+                for fid, fam in rep.fams.items():
+                    if fid not in s.fams:
+                        s.fams[fid] = fam
+                s.env = dict(rep.env)
+                s.heap = dict(rep.heap)
+                s.log = list(rep.log)
+                s.ghost = dict(rep.ghost)
+                s.assume(extra)
+                return s
+
+            # --- arbitrary iteration j in [1, m): preservation
+            j = smt.fresh("j", z3.IntSort())
+            sj = from_pre(z3.And(j >= 1, j < m))
+            sj.note_k(z3.IntVal(0))
+            sj.note_k(z3.IntVal(1))
+            sj.note_k(j)
+            sj.note_k(j + 1)
+            lc.abstract(self, pre, sj, j, seq)
+            general = []
+            if self.feasible(sj):
+                sj.trail.append(label + ":iter j")
+                base_len = len(sj.log)
+                for s2, out2 in body(sj, seq.get(j), j):
+                    if out2[0] in ("normal", "continue"):
+                        lc.check(self, pre, s2, j + 1, seq, label + ":preserve")
+                        general = [("forall",) + tuple(ev) for ev in s2.log[base_len:] if ev and ev[0] == "touch"]
+                    elif out2[0] == "break":
+                        raise Unsupported("break in symbolic loop")
+                    else:
+                        yield s2, out2
+            # --- exit with Inv(m)
+            se = from_pre(z3.BoolVal(True))
+            se.note_k(z3.IntVal(0))
+            se.note_k(z3.IntVal(1))
+            se.note_k(m)
+            se.note_k(m - 1)
+            lc.abstract(self, pre, se, m, seq)
+            se.log.extend(general)
+            se.trail.append(label + ":exit")
+            yield se, ("normal", None)
 
     def st_While(self, node, st):
         raise Unsupported("while loop at line %d" % node.lineno)
